@@ -110,6 +110,7 @@ func checkC03(c *Ctx) {
 	checkBodyAssigned(c, ev)
 	checkBinderLoops(c, ev)
 	checkInnerArraysKept(c, "C03.R2.inner-arrays-kept", ev)
+	checkRangeFilters(c, "C03.R2.range-filters", ev, reviewedRangeFilters, 25)
 	checkDefaultInitAgreement(c, ev)
 
 	// ---- R3 Go side
